@@ -114,6 +114,21 @@ def check(run: Run) -> None:
         if len(pc) != 1 or cn(pc[0].args[0]) != HDRX(cn, "parent_node().node_index()"):
             pass
 
+    with run.obligation("C09.b2", "K2+K4", "the `evaluating` flag that suppresses the out-of-band parent wake-up brackets exactly one evaluate_impl "
+                        "call: set once, cleared on every exit (return, pause, exception)"):
+        fa = R.fn(run, GRAPH, "evaluate_impl")
+        fl = R.flow(run, fa)
+        on = R.store_is(r".*\.evaluating", r"true")
+        off = R.store_is(r".*\.evaluating", r"false")
+        for ex in ("normal", "exc"):
+            R.k2_follow(run, "C09.b2", fl, on, off, f"evaluating := true is undone on every {ex} exit", exits=ex)
+        ws = [w for w in R.field_writers(run.tree, "evaluating", files=[GRAPH]) if w[3] == "store"]
+        run.sites(len(ws), 2, "stores to evaluating")
+        for rel, qual, line, kind, *rest in ws:
+            run.count(1, "C09.b2.writers")
+            if not qual.endswith("evaluate_impl"):
+                run.finding("C09.b2", f"evaluating:writer:{qual}", f"{qual} writes the evaluating flag outside evaluate_impl", loc=f"{rel}:{line}")
+
     with run.obligation("C09.c", "K2+K1", "a completed nested evaluation propagates the child's next time to the parent (not on the pause path); "
                         "propagate schedules the parent at NEXT iff NEXT < MAX_DT"):
         fa = R.fn(run, GRAPH, "evaluate_impl")
@@ -271,6 +286,7 @@ def HDRX(cn, tail):
 
 
 VARIANTS = [
+    {"id": "b2-evaluating-stuck-on-throw", "expect": "C09.b2", "edits": [{"file": GRAPH, "find": "  auto reset = make_scope_exit([&] noexcept { state.evaluating = false; });\n", "replace": ""}, {"file": GRAPH, "find": "        // (the enclosing mesh node resolves the dependency and resumes us).\n        return false;", "replace": "        // (the enclosing mesh node resolves the dependency and resumes us).\n        state.evaluating = false;\n        return false;"}, {"file": GRAPH, "find": "        graph_header<NestedGraphRuntimeStorage>(runtime, graph.data()));\n  }\n  return true;\n}", "replace": "        graph_header<NestedGraphRuntimeStorage>(runtime, graph.data()));\n  }\n  state.evaluating = false;\n  return true;\n}"}]},
     {"id": "a-nested-uses-root-slot", "expect": "C09.a", "edits": [{"file": GRAPH, "find": "        .schedule_node_impl = &nested_schedule_node_impl,", "replace": "        .schedule_node_impl = &schedule_node_impl<NestedGraphRuntimeStorage>,"}]},
     {"id": "b-no-clamp", "expect": "C09.b", "edits": [{"file": GRAPH, "find": "  when = std::max(when, parent.graph().evaluation_time());\n", "replace": ""}]},
     {"id": "b-wake-while-evaluating", "expect": "C09.b", "edits": [{"file": GRAPH, "find": "  if (!state.started || state.evaluating) {\n    return;\n  }", "replace": "  if (!state.started) {\n    return;\n  }"}]},
